@@ -50,7 +50,8 @@ Record minfo := mkM { mi_name : string;
                       mi_writes : list gwrite; mi_exec : bool; mi_ret : rkind; mi_retself : bool }.
 Record facts := mkF { f_methods : list minfo;
                       f_wraps : opk -> opk -> bool;        (* decorator kind, receiver's last_op -> body gets a copy *)
-                      f_result_kind : opk -> opk -> opk }.  (* last_op given to the result *)
+                      f_result_kind : opk -> opk -> opk;   (* last_op given to the result *)
+                      f_shares : bool }.                   (* copy() keeps the very hint objects (shallow list copy) *)
 
 (** * Heap *)
 Definition loc := nat.
@@ -502,4 +503,98 @@ Proof.
     apply existsb_exists in Hg. destruct Hg as [x [Hx Hxe]].
     assert (x = op) by (destruct op, x; simpl in Hxe; try discriminate Hxe; reflexivity). subst x.
     specialize (Hopen op Hx). rewrite Hw in Hopen. discriminate Hopen.
+Qed.
+
+(** * last_op is not an observable: writes into the receiver's own last_op cell (select() without columns returns
+      its receiver and the wrapper stamps last_op on it) cannot change any DataFrame's value *)
+Definition value_safe (F : facts) (h : heap) (c : call) : bool :=
+  match find_m F (c_name c) with
+  | Some mi => forallb (fun w => wt_eqb (gw_t w) WLast || match w_cells F h c w with [] => true | _ => false end) (mi_writes mi)
+  | None => false
+  end.
+
+Lemma value_safe_mw : forall F h c mi l, find_m F (c_name c) = Some mi -> value_safe F h c = true ->
+  In l (mw F h c mi) -> exists r, In r (srcs_of c) /\ l = o_last (get_df h r).
+Proof.
+  intros F h c mi l Hf Hs Hin. unfold value_safe in Hs. rewrite Hf in Hs. rewrite forallb_forall in Hs.
+  unfold mw in Hin. apply in_flat_map in Hin. destruct Hin as [w [Hw Hl]]. specialize (Hs w Hw).
+  destruct (w_cells F h c w) as [|x xs] eqn:E; [destruct Hl|].
+  rewrite orb_false_r in Hs. apply wt_eqb_eq in Hs.
+  unfold w_cells in E. destruct (w_open F h c w); [|discriminate E].
+  destruct (w_root c w) as [r|] eqn:Er; [|discriminate E]. exists r. split; [eapply w_root_src; eauto|].
+  rewrite Hs in E. unfold tcells in E. inversion E; subst. destruct Hl as [<-|[]]. reflexivity.
+Qed.
+
+Lemma last_not_in_vfoot : forall h live r d0, wf (h, live) -> In r live -> In d0 live ->
+  ~ In (o_last (get_df h r)) (vfoot h d0).
+Proof.
+  intros h live r d0 [_ [HD [HB HC]]] Hr Hd Hin. unfold vfoot in Hin. apply in_app_or in Hin.
+  assert (Hl : In (o_last (get_df h r)) (own h r)) by (unfold own; simpl; auto 10).
+  destruct Hin as [Hin|Hin]; [|exact (HC d0 r Hd Hr _ Hin Hl)].
+  destruct (Nat.eq_dec d0 r) as [->|Ne].
+  - specialize (HD r Hr). unfold own in HD. set (o := get_df h r) in *.
+    inversion HD as [|x1 l1 N1 T1]; subst. inversion T1 as [|x2 l2 N2 T2]; subst.
+    inversion T2 as [|x3 l3 N3 T3]; subst. inversion T3 as [|x4 l4 N4 T4]; subst.
+    simpl in *. destruct Hin as [E|[E|[E|[E|[]]]]].
+    + apply N1. rewrite E. auto 10.
+    + apply N2. rewrite E. auto 10.
+    + apply N3. rewrite E. auto 10.
+    + apply N4. rewrite E. auto 10.
+  - apply (HB d0 r Hd Hr Ne (o_last (get_df h r))); [|exact Hl]. unfold own. simpl in *. intuition.
+Qed.
+
+Theorem frame_value_step : forall F h live c h', wf (h, live) -> In (c_recv c) live -> (forall o, c_other c = Some o -> In o live) ->
+  step F h c h' -> value_safe F h c = true -> forall d0, In d0 live -> value h' d0 = value h d0.
+Proof.
+  intros F h live c h' Hwf Hr Ho [mi [Hf [_ [Hk _]]]] Hsafe d0 Hd. apply value_same. intros l Hin. apply Hk.
+  - eapply vfoot_alloc; eauto.
+  - intros Hm. destruct (@value_safe_mw F h c mi l Hf Hsafe Hm) as [r [Hsrc ->]].
+    apply (@last_not_in_vfoot h live r d0 Hwf); auto.
+    unfold srcs_of in Hsrc. destruct Hsrc as [<-|Hsrc]; [exact Hr|].
+    destruct (c_other c) as [o|] eqn:Eo; [|destruct Hsrc]. destruct Hsrc as [<-|[]]. apply Ho. reflexivity.
+Qed.
+
+(** the frame theorem on the domain [value_safe], over all call sequences *)
+Theorem frame_value : forall F st c st', facts_struct_ok F = true -> reachable F st -> sstep F st c st' ->
+  value_safe F (fst st) c = true -> forall d0, In d0 (snd st) -> value (fst st') d0 = value (fst st) d0.
+Proof.
+  intros F [h live] c [h' live'] Hs Hr [Hin [Ho [Hst _]]] Hsafe d0 Hd. simpl in *.
+  eapply frame_value_step; eauto. eapply reachable_wf; eauto.
+Qed.
+
+(** when every write of every method is a last_op stamp, every call is in the domain *)
+Definition only_last_writes (F : facts) : bool :=
+  forallb (fun mi => forallb (fun w => wt_eqb (gw_t w) WLast) (mi_writes mi)) (f_methods F).
+Lemma only_last_value_safe : forall F h c mi, only_last_writes F = true -> find_m F (c_name c) = Some mi -> value_safe F h c = true.
+Proof.
+  intros F h c mi H Hf. unfold value_safe. rewrite Hf. unfold only_last_writes in H. rewrite forallb_forall in H.
+  specialize (H mi (find_m_in _ _ Hf)). rewrite forallb_forall in *. intros w Hw. rewrite (H w Hw). reflexivity.
+Qed.
+(** when the only other writes go into shared hint objects, every call on DataFrames without pending hints is *)
+Definition only_last_or_shared (F : facts) : bool :=
+  forallb (fun mi => forallb (fun w => wt_eqb (gw_t w) WLast || shared_t (gw_t w)) (mi_writes mi)) (f_methods F).
+Lemma hint_free_value_safe : forall F h c mi, only_last_or_shared F = true -> find_m F (c_name c) = Some mi ->
+  hint_free h (c_recv c) = true -> (forall o, c_other c = Some o -> hint_free h o = true) -> value_safe F h c = true.
+Proof.
+  intros F h c mi H Hf Hr Ho. unfold value_safe. rewrite Hf. unfold only_last_or_shared in H. rewrite forallb_forall in H.
+  specialize (H mi (find_m_in _ _ Hf)). rewrite forallb_forall in *. intros w Hw. specialize (H w Hw).
+  destruct (wt_eqb (gw_t w) WLast); [reflexivity|]. simpl in *.
+  unfold w_cells. destruct (w_open F h c w); [|reflexivity].
+  destruct (w_root c w) as [r|] eqn:Er; [|reflexivity].
+  destruct (gw_t w); simpl in H; try discriminate H. unfold tcells.
+  assert (Hf' : hint_free h r = true).
+  { unfold w_root in Er. destruct (gw_root w); [inversion Er; subst; exact Hr | apply Ho; exact Er]. }
+  unfold hint_free in Hf'. destruct (hobjs h r); [reflexivity | discriminate Hf'].
+Qed.
+
+Theorem repeat_value : forall F st c st1 st2, facts_struct_ok F = true -> reachable F st ->
+  sstep F st c st1 -> sstep F st1 c st2 ->
+  value_safe F (fst st) c = true -> value_safe F (fst st1) c = true ->
+  forall d0, In d0 (snd st) -> value (fst st1) d0 = value (fst st) d0 /\ value (fst st2) d0 = value (fst st) d0.
+Proof.
+  intros F st c st1 st2 Hs Hr H1 H2 S1 S2 d0 Hd.
+  assert (E1 : value (fst st1) d0 = value (fst st) d0) by (eapply frame_value; eauto).
+  split; [exact E1|]. rewrite <- E1. eapply frame_value; eauto.
+  - eapply Rcall; eauto.
+  - eapply sstep_live; eauto.
 Qed.
